@@ -224,11 +224,49 @@ HIST_RULE = ("model-guided random API histories (2-14 transactions of up to 12 c
              "non-trivial if the case hit at least one structural event or error branch (flags listed under events)")
 
 
+NODE_RULE = ("; plus the materialised node driven directly (verif accessors): random put/del/size/sizeLessThan/splitIndex/split/write/read scripts over leaf and branch nodes, "
+             "3 page sizes, 11 fill percentages, panicking arguments included, compared call by call with the line-for-line model Node.v")
+
+
+def _is_node_replay(path):
+    try:
+        return bool(re.search(r"(?m)^case \S+ leaf=", open(path, errors="replace").read(20000)))
+    except OSError:
+        return False
+
+
+def _node_replay(ctx, pid, mode):
+    res = Result()
+    res.rule = "replay of one node script"
+    with ctx:
+        for r in run_sharded(ctx, "node", 1, lambda i: ["-replay", ctx.replay], 600, oracle_mode=mode):
+            absorb(res, pid, *r)
+    return res
+
+
+def _node_extra(ctx, res, pid, mode):
+    """node.go / inode.go against Node.v (put, del, split: C04; write, read: C12)"""
+    if ctx.replay:
+        return
+    ctx2 = Ctx(pid=pid, tier=ctx.tier, seed=ctx.seed, replay=None, t0=ctx.t0, budget_s=ctx.budget_s)
+    ctx2.dir = ctx.dir + ".n"
+    with ctx2:
+        quick = ctx.tier == "quick" or ctx.budget_s
+        runs = run_sharded(ctx2, "node", 6 if quick else 16, lambda i: ["-seed", str(ctx.seed * 1000 + 700 + i), "-n", "120" if quick else "1200"],
+                           ctx.budget_s or (600 if quick else 3000), oracle_mode=mode)
+        for r in runs:
+            absorb(res, pid, *r)
+
+
 def c04(ctx):
-    """C04 nested ordered map: every API result and every dump of the implementation vs Spec.v.
+    """C04 nested ordered map: every API result and every dump of the implementation vs Spec.v; node.go's put/del/split vs Node.v.
     Assumes: root bucket reached only through Tx methods; bucket names <= 32768 bytes. About one history in 24 ends by moving a bucket into its own subtree (known finding D4:
     the reference refuses, the code returns nil and drops the subtree); every other disagreement is a violation."""
-    return _hist(ctx, "c04", "none", HIST_RULE, 400, 8000, as_propfail=True, extra_args=("-selfmoves",))
+    if ctx.replay and _is_node_replay(ctx.replay):
+        return _node_replay(ctx, "C04", "node04")
+    res = _hist(ctx, "c04", "none", HIST_RULE + NODE_RULE, 400, 8000, as_propfail=True, extra_args=("-selfmoves",))
+    _node_extra(ctx, res, "C04", "node04")
+    return res
 
 
 def c07(ctx):
@@ -249,7 +287,11 @@ def c07(ctx):
 
 def c12(ctx):
     """C12 format: every file image is decoded by the extracted independent reader and compared with the API dump taken just before the commit."""
-    return _hist(ctx, "c12", "commit", HIST_RULE + "; one file image per commit", 240, 4000)
+    if ctx.replay and _is_node_replay(ctx.replay):
+        return _node_replay(ctx, "C12", "node12")
+    res = _hist(ctx, "c12", "commit", HIST_RULE + "; one file image per commit" + NODE_RULE, 240, 4000)
+    _node_extra(ctx, res, "C12", "node12")
+    return res
 
 
 def c05(ctx):
